@@ -927,3 +927,252 @@ Proof.
       rewrite flat_map_app, IH, (dotfields_atoms (snd ix)). reflexivity.
   - destruct s; cbn [dotfields_stmt]; rewrite ?SLet_dot_of; cbn [atoms_stmt]; try apply dotfields_atoms; reflexivity.
 Qed.
+
+(* ---------------------------------------------------------------------------------------------- *)
+(** * C10 in plain terms *)
+
+(* which of a member's operands are expressions / types / member tokens *)
+Definition expr_operands (a : action) : list operand :=
+  match a_mv a with
+  | NoMove => if has_inner_exprs (a_comb a) && negb (comb_eqb (a_comb a) Dot) then a_ops a else []
+  | Wrap | Unwrap => []
+  end.
+Definition type_operands (a : action) : list operand :=
+  match a_mv a with
+  | NoMove => match a_comb a with Collect | Unzip => a_ops a | _ => [] end
+  | Wrap | Unwrap => []
+  end.
+Definition dot_operands (a : action) : list operand :=
+  match a_mv a with
+  | NoMove => match a_comb a with Dot => a_ops a | _ => [] end
+  | Wrap | Unwrap => []
+  end.
+
+(* on parser output these are ALL operands of a member - except the generated placeholder closure `|__v| __v` that
+   a `>>>` member holds, which the generator replaces by the closure it builds; a `<<<` member has no operand *)
+Lemma operands_partition a :
+  act_ok a -> a_mv a = NoMove -> a_ops a = expr_operands a ++ type_operands a ++ dot_operands a.
+Proof.
+  intros (Har & _ & Hu) Hm. unfold expr_operands, type_operands, dot_operands. rewrite Hm.
+  destruct (a_comb a) eqn:Ec; cbn [has_inner_exprs comb_eqb negb andb app]; rewrite ?app_nil_r; try reflexivity;
+    cbn in Har; destruct (a_ops a) as [|o l]; try reflexivity; try discriminate.
+Qed.
+Lemma unwrap_no_operands a : act_ok a -> a_mv a = Unwrap -> a_ops a = [].
+Proof.
+  intros (Har & _ & Hu) Hm. apply Hu in Hm. rewrite Hm in Har. cbn in Har.
+  destruct (a_ops a); [reflexivity|discriminate].
+Qed.
+
+Lemma Permutation_flat_map' {A B} (f : A -> list B) l l' : Permutation l l' -> Permutation (flat_map f l) (flat_map f l').
+Proof.
+  induction 1; cbn [flat_map]; auto.
+  - apply Permutation_app_head. assumption.
+  - rewrite !app_assoc. apply Permutation_app_tail, Permutation_app_comm.
+  - eapply Permutation_trans; eauto.
+Qed.
+
+Lemma flat_map_flat_map {A B C} (f : A -> list B) (g : B -> list C) l :
+  flat_map g (flat_map f l) = flat_map (fun x => flat_map g (f x)) l.
+Proof. induction l as [|x r IH]; cbn [flat_map]; [reflexivity|]. now rewrite flat_map_app, IH. Qed.
+
+Lemma flat_map_concat' {A B} (f : A -> list B) (l : list (list A)) :
+  flat_map (flat_map f) l = flat_map f (List.concat l).
+Proof. induction l as [|x r IH]; cbn [flat_map List.concat]; [reflexivity|]. now rewrite flat_map_app, IH. Qed.
+
+Lemma flat_map_enum_snd {A B} (f : A -> list B) l : forall i,
+  flat_map (fun ix => f (snd ix)) (enum_from i l) = flat_map f l.
+Proof. induction l as [|x r IH]; intros i; cbn [enum_from flat_map snd]; [reflexivity|]. now rewrite IH. Qed.
+
+Lemma tag_expr_of b e ops : forall i, flat_map expr_of (map (tag_expr b e) (enum_from i ops)) = ops.
+Proof.
+  induction ops as [|o r IH]; intros i; cbn [enum_from map flat_map]; [reflexivity|]. rewrite IH.
+  unfold tag_expr. cbn [fst snd]. destruct (is_block o); reflexivity.
+Qed.
+Lemma tag_type_of b e ops : forall i, flat_map type_of (map (tag_expr b e) (enum_from i ops)) = [].
+Proof.
+  induction ops as [|o r IH]; intros i; cbn [enum_from map flat_map]; [reflexivity|]. rewrite IH.
+  unfold tag_expr. cbn [fst snd]. destruct (is_block o); reflexivity.
+Qed.
+Lemma tag_dot_of b e ops : forall i, flat_map dot_of (map (tag_expr b e) (enum_from i ops)) = [].
+Proof.
+  induction ops as [|o r IH]; intros i; cbn [enum_from map flat_map]; [reflexivity|]. rewrite IH.
+  unfold tag_expr. cbn [fst snd]. destruct (is_block o); reflexivity.
+Qed.
+
+Lemma action_expr_of b e a : flat_map expr_of (action_atoms b e a) = expr_operands a.
+Proof.
+  unfold action_atoms, expr_operands. destruct (a_mv a); try reflexivity.
+  destruct (a_comb a); cbn [has_inner_exprs comb_eqb negb andb];
+    rewrite ?tag_expr_of, ?expr_of_map_UType, ?expr_of_map_UDot; reflexivity.
+Qed.
+Lemma action_type_of b e a : flat_map type_of (action_atoms b e a) = type_operands a.
+Proof.
+  unfold action_atoms, type_operands. destruct (a_mv a); try reflexivity.
+  destruct (a_comb a); cbn [has_inner_exprs];
+    rewrite ?tag_type_of, ?type_of_map_UType, ?type_of_map_UDot; reflexivity.
+Qed.
+Lemma action_dot_of b e a : flat_map dot_of (action_atoms b e a) = dot_operands a.
+Proof.
+  unfold action_atoms, dot_operands. destruct (a_mv a); try reflexivity.
+  destruct (a_comb a); cbn [has_inner_exprs];
+    rewrite ?tag_dot_of, ?dot_of_map_UType, ?dot_of_map_UDot; reflexivity.
+Qed.
+
+Section ProjBranch.
+  Variable pr : uatom -> list operand.
+  Variable sel : action -> list operand.
+  Hypothesis Hact : forall b e a, flat_map pr (action_atoms b e a) = sel a.
+
+  Lemma step_proj b acts : forall e, flat_map pr (step_atoms b e acts) = flat_map sel acts.
+  Proof.
+    unfold step_atoms. induction acts as [|a r IH]; intros e; cbn [enum_from flat_map fst snd]; [reflexivity|].
+    now rewrite flat_map_app, Hact, IH.
+  Qed.
+  Lemma branch_proj bi b : flat_map pr (branch_atoms bi b) = flat_map sel (b_members b).
+  Proof.
+    unfold branch_atoms. rewrite flat_map_flat_map.
+    rewrite (flat_map_ext _ (flat_map sel)) by (intros s; apply step_proj).
+    rewrite flat_map_concat', split_steps_concat. reflexivity.
+  Qed.
+  Lemma branches_proj bs : forall i,
+    flat_map pr (flat_map (fun ib => branch_atoms (fst ib) (snd ib)) (enum_from i bs))
+    = flat_map (fun b => flat_map sel (b_members b)) bs.
+  Proof.
+    intros i. rewrite flat_map_flat_map.
+    rewrite (flat_map_ext _ (fun ib => flat_map sel (b_members (snd ib)))) by (intros ib; apply branch_proj).
+    apply (flat_map_enum_snd (fun b => flat_map sel (b_members b))).
+  Qed.
+End ProjBranch.
+
+Definition handler_operand (inp : input) : list operand :=
+  match i_handler inp with Some (_, h) => [h] | None => [] end.
+Definition joiner_copies (inp : input) : list operand :=
+  match i_joiner inp with Some jt => repeat jt (multi_steps inp) | None => [] end.
+
+Lemma expr_of_repeat jt n : flat_map expr_of (repeat (UExpr jt) n) = repeat jt n.
+Proof. induction n as [|n IH]; cbn; [reflexivity|]. now rewrite IH. Qed.
+Lemma type_of_repeat jt n : flat_map type_of (repeat (UExpr jt) n) = [].
+Proof. induction n as [|n IH]; cbn; [reflexivity|]. exact IH. Qed.
+Lemma dot_of_repeat jt n : flat_map dot_of (repeat (UExpr jt) n) = [].
+Proof. induction n as [|n IH]; cbn; [reflexivity|]. exact IH. Qed.
+
+(* C10(1): the user expressions in the expansion = the expression operands of all members + the handler
+   expression + the custom joiner once per multi-branch step; as multisets *)
+Theorem operands_occur_once cfg inp e :
+  wf_parsed inp -> gen cfg inp = Ok e ->
+  Permutation (leaves e)
+              (handler_operand inp ++ joiner_copies inp ++
+               flat_map (fun b => flat_map expr_operands (b_members b)) (i_branches inp)).
+Proof.
+  intros Hwf H. rewrite leaves_atoms.
+  eapply Permutation_trans; [apply Permutation_flat_map', (atoms_exact cfg inp e Hwf H)|].
+  unfold input_atoms. rewrite !flat_map_app.
+  rewrite (branches_proj expr_of expr_operands action_expr_of).
+  apply Permutation_app; [|apply Permutation_app; [|reflexivity]].
+  - unfold handler_atoms, handler_operand. destruct (i_handler inp) as [[hk h]|]; reflexivity.
+  - unfold joiner_copies. destruct (i_joiner inp); [rewrite expr_of_repeat|]; reflexivity.
+Qed.
+
+Theorem type_operands_occur_once cfg inp e :
+  wf_parsed inp -> gen cfg inp = Ok e ->
+  Permutation (tyfields e) (flat_map (fun b => flat_map type_operands (b_members b)) (i_branches inp)).
+Proof.
+  intros Hwf H. rewrite tyfields_atoms.
+  eapply Permutation_trans; [apply Permutation_flat_map', (atoms_exact cfg inp e Hwf H)|].
+  unfold input_atoms. rewrite !flat_map_app.
+  rewrite (branches_proj type_of type_operands action_type_of).
+  replace (flat_map type_of (handler_atoms (i_handler inp))) with (@nil operand)
+    by (unfold handler_atoms; destruct (i_handler inp) as [[hk h]|]; reflexivity).
+  replace (flat_map type_of match i_joiner inp with Some jt => repeat (UExpr jt) (multi_steps inp) | None => [] end)
+    with (@nil operand) by (destruct (i_joiner inp); [rewrite type_of_repeat|]; reflexivity).
+  reflexivity.
+Qed.
+
+Theorem dot_operands_occur_once cfg inp e :
+  wf_parsed inp -> gen cfg inp = Ok e ->
+  Permutation (dotfields e) (flat_map (fun b => flat_map dot_operands (b_members b)) (i_branches inp)).
+Proof.
+  intros Hwf H. rewrite dotfields_atoms.
+  eapply Permutation_trans; [apply Permutation_flat_map', (atoms_exact cfg inp e Hwf H)|].
+  unfold input_atoms. rewrite !flat_map_app.
+  rewrite (branches_proj dot_of dot_operands action_dot_of).
+  replace (flat_map dot_of (handler_atoms (i_handler inp))) with (@nil operand)
+    by (unfold handler_atoms; destruct (i_handler inp) as [[hk h]|]; reflexivity).
+  replace (flat_map dot_of match i_joiner inp with Some jt => repeat (UExpr jt) (multi_steps inp) | None => [] end)
+    with (@nil operand) by (destruct (i_joiner inp); [rewrite dot_of_repeat|]; reflexivity).
+  reflexivity.
+Qed.
+
+(* hoisting: a `let x = <user expr>;` in the expansion is the handler binding or the binding of a BLOCK operand
+   under its own name __ew<branch>_<position>_<operand index>; and no block operand of a hoistable member is spliced
+   in place *)
+Theorem bound_atoms_are_blocks cfg inp e x o :
+  wf_parsed inp -> gen cfg inp = Ok e -> In (UBound x o) (atoms e) ->
+  (x = n_h /\ exists hk, i_handler inp = Some (hk, o)) \/
+  (exists b k i, x = n_ew b k i /\ is_block o = true).
+Proof.
+  intros Hwf H Hin. apply (Permutation_in _ (atoms_exact cfg inp e Hwf H)) in Hin.
+  unfold input_atoms in Hin. apply in_app_or in Hin as [Hin|Hin].
+  - left. unfold handler_atoms in Hin. destruct (i_handler inp) as [[hk h]|]; [|destruct Hin].
+    destruct Hin as [Heq|[]]. inversion Heq; subst. eauto.
+  - right. apply in_app_or in Hin as [Hin|Hin].
+    + destruct (i_joiner inp); [|destruct Hin]. apply repeat_spec in Hin. discriminate.
+    + apply in_flat_map in Hin as ([bi b] & _ & Hin). unfold branch_atoms in Hin. cbn [fst snd] in Hin.
+      apply in_flat_map in Hin as (s & _ & Hin). unfold step_atoms in Hin.
+      apply in_flat_map in Hin as ([k a] & _ & Hin). cbn [fst snd] in Hin. unfold action_atoms in Hin.
+      destruct (a_mv a); try (destruct Hin; fail).
+      assert (Htag : In (UBound x o) (map (tag_expr bi k) (enum_from 0 (a_ops a))) ->
+                     exists b k i, x = n_ew b k i /\ is_block o = true).
+      { intros Ht. apply in_map_iff in Ht as ([i o'] & Ht & _). unfold tag_expr in Ht. cbn [fst snd] in Ht.
+        destruct (is_block o') eqn:Eb; inversion Ht; subst. eauto. }
+      destruct (a_comb a); cbn [has_inner_exprs] in Hin; try (apply Htag, Hin); try (destruct Hin; fail);
+        apply in_map_iff in Hin as (o' & Ht & _); discriminate.
+Qed.
+
+Print Assumptions operands_occur_once.
+Print Assumptions type_operands_occur_once.
+Print Assumptions dot_operands_occur_once.
+Print Assumptions bound_atoms_are_blocks.
+
+(* ---------------------------------------------------------------------------------------------- *)
+(** * Non-vacuity (the 3-branch input of GenPropsA: wrappers, block operands, depths 3/1/2, joiner, handler) *)
+
+Definition ex_cfg := mkConfig false true true.      (* try_join_spawn! *)
+
+Example ex_atoms_concrete :
+  exists e, gen ex_cfg ex_input = Ok e /\
+    atoms e =
+    [UBound "__h" (T "hd"); UBound "__ew0_3_0" (blk "g"); UBound "__ew2_0_0" (blk "c"); UExpr (T "my_joiner");
+     UExpr (T "a"); UExpr (T "h"); UExpr (T "b"); UDot (T "len");
+     UType (T "T1"); UType (T "T2"); UType (T "T3"); UType (T "T4");
+     UBound "__ew0_0_0" (blk "k"); UExpr (T "my_joiner"); UType (T "Vec"); UBound "__ew0_0_0" (blk "z"); UExpr (T "f2")].
+Proof. eexists. split; vm_compute; reflexivity. Qed.
+
+(* the theorem applied: hypotheses hold, and the right-hand side is the explicit list of the user's operands;
+   the joiner occurs twice (steps 0 and 1 have 3 resp. 2 active branches, step 2 has one) *)
+Example ex_operands_once :
+  exists e, gen ex_cfg ex_input = Ok e /\
+    Permutation (leaves e)
+      [T "hd"; T "my_joiner"; T "my_joiner"; T "a"; blk "g"; T "h"; blk "k"; blk "z"; T "f2"; T "b"; blk "c"] /\
+    Permutation (tyfields e) [T "T1"; T "T2"; T "T3"; T "T4"; T "Vec"] /\
+    Permutation (dotfields e) [T "len"].
+Proof.
+  destruct (gen ex_cfg ex_input) as [e| |] eqn:E; try (vm_compute in E; discriminate).
+  exists e. split; [reflexivity|].
+  pose proof (operands_occur_once ex_cfg ex_input e ex_input_wf' E) as H1.
+  pose proof (type_operands_occur_once ex_cfg ex_input e ex_input_wf' E) as H2.
+  pose proof (dot_operands_occur_once ex_cfg ex_input e ex_input_wf' E) as H3.
+  vm_compute in H1, H2, H3. auto.
+Qed.
+Example ex_multi_steps : multi_steps ex_input = 2.
+Proof. vm_compute. reflexivity. Qed.
+
+(* why wf_parsed is needed (none of these can come out of the parser): an `Initial` member that is not first
+   discards everything before it; an operand on `^^>` is ignored *)
+Example ex_not_wf_drops :
+  let inp := mkInput [mkBranch None [act Initial false NoMove [T "a"]; act Map false NoMove [T "f"];
+                                     act Initial false NoMove [T "b"]; act Flatten false NoMove [T "junk"]]]
+                     None None None None None in
+  wf_parsedb inp = false /\
+  exists e, gen (mkConfig false false false) inp = Ok e /\ leaves e = [T "b"].
+Proof. split; [vm_compute; reflexivity|]. eexists. split; vm_compute; reflexivity. Qed.
